@@ -37,6 +37,7 @@ void vf::c14_case(Ctx &c) {
   // mode with-inhibit (param 1): the inhibit time is written with non-zero values too, for any transmission type, and a few ticks may pass; a transmission the
   // inhibit time may be holding back is not constrained (the statement does not say how an inhibit time applies), everything else is
   const bool winh = c.param == 1; bool sent_recently = false, inh_seen = false; int tickops = 0, inh_holds = 0;
+  Cfg rp_cfg; memset(&rp_cfg, 0, sizeof rp_cfg);
   int synccnt = 0; bool rpend = false, sync_probed = false, timing_written = false;   // SYNCs counted since the TPDO's activation; a synchronous RPDO frame may be buffered
   auto findobj = [&](uint32_t m) -> int { for (int i = 0; i < 6; i++) if ((m >> 8) == ((0x2100u << 8) | OB[i].sub)) return i; return -1; };
   auto verdict = [&](uint32_t code, bool refuse, uint32_t want, const char *what, uint32_t val) {
@@ -154,6 +155,9 @@ void vf::c14_case(Ctx &c) {
           CHECK(c, s.tx[0].id == (ac[0].id & 0x7FFu) && s.tx[0].dlc == p && !memcmp(s.tx[0].d, ex, p), "takes-effect-as-stored", "TPDO frame %s on SYNC does not match the activated configuration (id %03X, %d mapped bytes)", s.tx[0].str().c_str(), ac[0].id & 0x7FF, p); }
       }
       if (!rpend) { std::string d = s.diff_snapshot(model, s.snapshot()); CHECK(c, d.empty(), "takes-effect-as-stored", "a SYNC that follows no reception of a synchronous RPDO changed objects: %s", d.c_str()); }
+      else if (rp_cfg.num != ac[1].num || memcmp(rp_cfg.map, ac[1].map, sizeof rp_cfg.map)) {   // the RPDO was re-mapped (and re-activated) since the frame arrived: the frame belongs to a configuration that no longer exists
+        std::string d = s.diff_snapshot(model, s.snapshot()); c.cls("sync-after-a-buffered-rpdo-frame-and-a-re-mapping");
+        CHECK(c, d.empty(), "takes-effect-as-stored", "a frame buffered under the previous mapping of the RPDO was written to the objects of the mapping activated since: %s", d.c_str()); }
       rpend = false; sync_probed = true;
     } else {              // RPDO activation probe
       if (mode != 3) continue;
@@ -162,7 +166,7 @@ void vf::c14_case(Ctx &c) {
       std::vector<uint8_t> model = s.snapshot();
       s.rx(f);
       bool hit = act[1] && ac[1].type > 240 && !(ac[1].id & 0x80000000u) && (ac[1].id & 0x7FFu) == f.id;
-      if (act[1] && ac[1].type <= 240 && !(ac[1].id & 0x80000000u) && (ac[1].id & 0x7FFu) == f.id) rpend = true;   // buffered until the next SYNC (its effect is C13's business)
+      if (act[1] && ac[1].type <= 240 && !(ac[1].id & 0x80000000u) && (ac[1].id & 0x7FFu) == f.id) { rpend = true; rp_cfg = ac[1]; }   // buffered until the next SYNC (its effect is C13's business) - under the mapping that is active now
       VLOG(c, "probe: RPDO frame %s -> %s", f.str().c_str(), hit ? "mapped objects written" : "no effect");
       if (hit && !consistent) continue;
       if (hit) { int p = 0; for (int i = 0; i < ac[1].num; i++) { int o = findobj(ac[1].map[i]); w.expect_write(model, *ob[o], f.d + p, OB[o].bytes); p += OB[o].bytes; } }
